@@ -1,3 +1,4 @@
+\* thorough: node family with a larger pool and three-scope layouts
 CONSTANTS
   Layouts = {1, 3, 4, 5, 6, 7, 8, 9, 10, 11, 21, 22, 23}
   Tops = {"graph", "function"}
